@@ -1046,11 +1046,29 @@ func c15PositionArithmetic(p *Program, r *Report, sm *scanModel) {
 				if strings.Contains(got, cursor) && !strings.Contains(got, "?") {
 					n++
 					r.Check(got == "("+cursor+"+1)", "C15.R10", funcName(fn)+"|line head", p.Pos(instrPos(store)), st.Field(fa.Field).Name()+" = "+got+" when a newline is passed", "the line head is set to "+got+" when the cursor passes a newline, not to the offset of the character after it: every column on the following line is off by the difference")
+					// the line count moves with the line head: in the same block some other field f of the scanner becomes f+1
+					counted := false
+					for _, in2 := range b.Instrs {
+						st2, ok := in2.(*ssa.Store)
+						if !ok || st2 == store {
+							continue
+						}
+						fa2, ok := st2.Addr.(*ssa.FieldAddr)
+						if !ok || namedOf(derefType(fa2.X.Type())) != sm.scanT || fa2.Field == sm.offI || fa2.Field == fa.Field {
+							continue
+						}
+						if sym(st2.Val, 0) == "("+st.Field(fa2.Field).Name()+"+1)" {
+							counted = true
+						}
+					}
+					n++
+					r.Check(counted, "C15.R10", funcName(fn)+"|line count moves with the line head", p.Pos(instrPos(store)), "where the line head is set, the line count is incremented",
+						"the line head is moved past a newline but no line counter is incremented there: every position after the first newline is reported on the first line, and the statements of a second text are not shifted by the first text's line count")
 				}
 			}
 		}
 	}
-	r.Floor("C15.R10", n, 3)
+	r.Floor("C15.R10", n, 4)
 }
 
 // c15TokenAssigned (R11): every successful path of the scanning function gives the token a code: the code result never reaches
